@@ -257,3 +257,19 @@ void verif_seq_end(void) {
   verif_seq_on = 0;
 }
 #endif /* VERIF_SEQ */
+
+/* ---- libm: exact bit-level models of the exponent-extraction functions (IEEE-754 binary64/binary32) ---- */
+uint32_t X_ilogb(double x) {
+  uint64_t b; memcpy(&b, &x, 8);
+  uint32_t e = (uint32_t)((b >> 52) & 0x7FF); uint64_t m = b & 0xFFFFFFFFFFFFFULL;
+  if (e == 0x7FF) return m ? 0x80000000u /* FP_ILOGBNAN */ : 0x7FFFFFFFu;
+  if (e == 0) { if (!m) return 0x80000000u /* FP_ILOGB0 */; uint32_t k = 0; for (int i = 51; i >= 0; i--) { if ((m >> i) & 1) break; k++; } return (uint32_t)(-1023 - (int32_t)k); }
+  return (uint32_t)((int32_t)e - 1023);
+}
+uint32_t X_ilogbf(float x) {
+  uint32_t b; memcpy(&b, &x, 4);
+  uint32_t e = (b >> 23) & 0xFF, m = b & 0x7FFFFF;
+  if (e == 0xFF) return m ? 0x80000000u : 0x7FFFFFFFu;
+  if (e == 0) { if (!m) return 0x80000000u; uint32_t k = 0; for (int i = 22; i >= 0; i--) { if ((m >> i) & 1) break; k++; } return (uint32_t)(-127 - (int32_t)k); }
+  return (uint32_t)((int32_t)e - 127);
+}
